@@ -55,20 +55,23 @@ static word r_from_mask(int j, int c) {
 
 #if defined(H_ROWSWAP)
 void harness(void) {
-  mzd_t *M = vmat(NR, NC);
+  verif_init(0);
+  mzd_t *M = vop(NR, NC, 2);
   static word m[NR * W];
   ref_from_mzd(m, W, M);
   int a = vin_range(0, NR - 1), b = vin_range(0, NR - 1);
   mzd_row_swap(M, a, b);
   r_row_swap(m, a, b);
-  VASSERT(ref_eq_mzd(m, W, M, 1), "row_swap exchanges exactly rows a and b");
+  VASSERT(ref_eq_mzd(m, W, M, VOWNED(M)), "row_swap exchanges exactly rows a and b");
+  VFRAMES();
   VDONE();
 }
 #endif
 
 #if defined(H_COLSWAP)
 void harness(void) {
-  mzd_t *M = vmat(NR, NC);
+  verif_init(0);
+  mzd_t *M = vop(NR, NC, 2);
   static word m[NR * W];
   ref_from_mzd(m, W, M);
   int a = vin_range(0, NC - 1), b = vin_range(0, NC - 1);
@@ -81,14 +84,16 @@ void harness(void) {
   mzd_col_swap(M, a, b);
 #endif
   r_col_swap_rows(m, a, b, r0, r1);
-  VASSERT(ref_eq_mzd(m, W, M, 1), "col_swap exchanges exactly columns a and b in the row range");
+  VASSERT(ref_eq_mzd(m, W, M, VOWNED(M)), "col_swap exchanges exactly columns a and b in the row range");
+  VFRAMES();
   VDONE();
 }
 #endif
 
 #if defined(H_ROWADD)
 void harness(void) {
-  mzd_t *M = vmat(NR, NC);
+  verif_init(0);
+  mzd_t *M = vop(NR, NC, 2);
   static word m[NR * W];
   ref_from_mzd(m, W, M);
   int d = vin_range(0, NR - 1), s = vin_range(0, NR - 1);
@@ -104,14 +109,16 @@ void harness(void) {
   for (int i = 0; i < NR; ++i)
     for (int j = 0; j < W; ++j)
       if (i == d) m[i * W + j] ^= src[j] & r_from_mask(j, c);
-  VASSERT(ref_eq_mzd(m, W, M, 1), "row d += row s on columns >= coloffset, nothing else");
+  VASSERT(ref_eq_mzd(m, W, M, VOWNED(M)), "row d += row s on columns >= coloffset, nothing else");
+  VFRAMES();
   VDONE();
 }
 #endif
 
 #if defined(H_ROWCLEAR)
 void harness(void) {
-  mzd_t *M = vmat(NR, NC);
+  verif_init(0);
+  mzd_t *M = vop(NR, NC, 2);
   static word m[NR * W];
   ref_from_mzd(m, W, M);
   int r = vin_range(0, NR - 1);
@@ -120,15 +127,18 @@ void harness(void) {
   for (int i = 0; i < NR; ++i)
     for (int j = 0; j < W; ++j)
       if (i == r) m[i * W + j] &= ~r_from_mask(j, c);
-  VASSERT(ref_eq_mzd(m, W, M, 1), "row r cleared on columns >= coloffset, nothing else");
+  VASSERT(ref_eq_mzd(m, W, M, VOWNED(M)), "row r cleared on columns >= coloffset, nothing else");
+  VFRAMES();
   VDONE();
 }
 #endif
 
 #if defined(H_BITS)
-/* OP: 0 read_bits, 1 xor_bits, 2 clear_bits, 3 read_bits_int (n <= 16) */
+/* OP: 0 read_bits, 1 xor_bits, 2 clear_bits, 3 read_bits_int (n <= 16).
+ * Reference: the n bits at columns [y, y+n) of row x seen as a 128-bit window over words k=y/64, k+1 */
 void harness(void) {
-  mzd_t *M = vmat(NR, NC);
+  verif_init(0);
+  mzd_t *M = vop(NR, NC, 2);
   static word m[NR * W];
   ref_from_mzd(m, W, M);
   int x = vin_range(0, NR - 1);
@@ -136,16 +146,18 @@ void harness(void) {
   int y = vin_range(0, NC - 1);
   VASSUME(y + n <= NC);
   word nmask = (n == 64) ? ~(word)0 : (((word)1 << n) - 1);
-  /* reference value of bits [y, y+n) of row x */
-  word val = 0;
-  for (int t = 0; t < 64; ++t) {
-    word bit = 0;
-    for (int i = 0; i < NR; ++i) bit |= (i == x && t < n) ? r_getbit(m + i * W, (y + t < NC) ? y + t : 0) : 0;
-    val |= (t < n ? bit : 0) << t;
-  }
+  int k = y / 64, s = y % 64;
+  word lo = 0, hi = 0; /* words k and k+1 of row x */
+  for (int i = 0; i < NR; ++i)
+    for (int j = 0; j < W; ++j) {
+      lo |= (i == x && j == k) ? m[i * W + j] : 0;
+      hi |= (i == x && j == k + 1) ? m[i * W + j] : 0;
+    }
+  word val = ((lo >> s) | (s ? (hi << (64 - s)) : 0)) & nmask;
+  word mlo = nmask << s, mhi = s ? (nmask >> (64 - s)) : 0; /* window mask in words k, k+1 */
 #if OP == 0
   VASSERT(mzd_read_bits(M, x, y, n) == val, "read_bits returns bits [y,y+n) of row x");
-  VASSERT(ref_eq_mzd(m, W, M, 1), "read_bits does not modify");
+  VASSERT(ref_eq_mzd(m, W, M, VOWNED(M)), "read_bits does not modify");
 #elif OP == 3
   VASSUME(n <= 16);
   VASSERT((word)mzd_read_bits_int(M, x, y, n) == val, "read_bits_int returns bits [y,y+n) of row x");
@@ -153,16 +165,21 @@ void harness(void) {
   word v = vin_word() & nmask;
   mzd_xor_bits(M, x, y, n, v);
   for (int i = 0; i < NR; ++i)
-    for (int t = 0; t < 64; ++t)
-      if (i == x && t < n) { int c = y + t; r_setbit(m + i * W, c, r_getbit(m + i * W, c) ^ (v >> t)); }
-  VASSERT(ref_eq_mzd(m, W, M, 1), "xor_bits flips exactly the addressed entries");
+    for (int j = 0; j < W; ++j) {
+      if (i == x && j == k) m[i * W + j] ^= v << s;
+      if (i == x && j == k + 1) m[i * W + j] ^= s ? (v >> (64 - s)) : 0;
+    }
+  VASSERT(ref_eq_mzd(m, W, M, VOWNED(M)), "xor_bits flips exactly the addressed entries");
 #elif OP == 2
   mzd_clear_bits(M, x, y, n);
   for (int i = 0; i < NR; ++i)
-    for (int t = 0; t < 64; ++t)
-      if (i == x && t < n) r_setbit(m + i * W, y + t, 0);
-  VASSERT(ref_eq_mzd(m, W, M, 1), "clear_bits clears exactly the addressed entries");
+    for (int j = 0; j < W; ++j) {
+      if (i == x && j == k) m[i * W + j] &= ~mlo;
+      if (i == x && j == k + 1) m[i * W + j] &= ~mhi;
+    }
+  VASSERT(ref_eq_mzd(m, W, M, VOWNED(M)), "clear_bits clears exactly the addressed entries");
 #endif
+  VFRAMES();
   VDONE();
 }
 #endif
@@ -171,7 +188,8 @@ void harness(void) {
 /* MODE 0: combine_even_in_place(A,ar,SB,B,br,SB)  1: combine_even(C,cr,SB,A,ar,SB,B,br,SB)
  *      2: mzd_combine with C==A,cr==ar (dispatches in place)  3: mzd_combine general */
 void harness(void) {
-  mzd_t *A = vmat(NR, NC), *B = vmat(NR, NC), *C = vmat(NR, NC);
+  verif_init(0);
+  mzd_t *A = vop(NR, NC, 0), *B = vop(NR, NC, 1), *C = vop(NR, NC, 2);
   static word a[NR * W], b[NR * W], c[NR * W];
   ref_from_mzd(a, W, A); ref_from_mzd(b, W, B); ref_from_mzd(c, W, C);
   int ar = vin_range(0, NR - 1), br = vin_range(0, NR - 1), cr = vin_range(0, NR - 1);
@@ -184,8 +202,8 @@ void harness(void) {
   mzd_combine(A, ar, SB, A, ar, SB, B, br, SB);
 #endif
   for (int i = 0; i < NR; ++i) for (int j = SB; j < W; ++j) if (i == ar) a[i * W + j] ^= rb[j];
-  VASSERT(ref_eq_mzd(a, W, A, 1), "A[ar][SB:] += B[br][SB:], nothing else");
-  VASSERT(ref_eq_mzd(b, W, B, 1) && ref_eq_mzd(c, W, C, 1), "other operands unchanged");
+  VASSERT(ref_eq_mzd(a, W, A, VOWNED(A)), "A[ar][SB:] += B[br][SB:], nothing else");
+  VASSERT(ref_eq_mzd(b, W, B, VOWNED(B)) && ref_eq_mzd(c, W, C, VOWNED(C)), "other operands unchanged");
 #else
 #if MODE == 1
   mzd_combine_even(C, cr, SB, A, ar, SB, B, br, SB);
@@ -193,9 +211,10 @@ void harness(void) {
   mzd_combine(C, cr, SB, A, ar, SB, B, br, SB);
 #endif
   for (int i = 0; i < NR; ++i) for (int j = SB; j < W; ++j) if (i == cr) c[i * W + j] = ra[j] ^ rb[j];
-  VASSERT(ref_eq_mzd(c, W, C, 1), "C[cr][SB:] = A[ar][SB:] + B[br][SB:], nothing else");
-  VASSERT(ref_eq_mzd(a, W, A, 1) && ref_eq_mzd(b, W, B, 1), "sources unchanged");
+  VASSERT(ref_eq_mzd(c, W, C, VOWNED(C)), "C[cr][SB:] = A[ar][SB:] + B[br][SB:], nothing else");
+  VASSERT(ref_eq_mzd(a, W, A, VOWNED(A)) && ref_eq_mzd(b, W, B, VOWNED(B)), "sources unchanged");
 #endif
+  VFRAMES();
   VDONE();
 }
 #endif
@@ -223,7 +242,8 @@ static mzp_t *sym_perm(void) {
 #if defined(H_PLEFT)
 /* TRANS 0/1 ; P of length PL <= NR (shorter permutation allowed) */
 void harness(void) {
-  mzd_t *M = vmat(NR, NC);
+  verif_init(0);
+  mzd_t *M = vop(NR, NC, 2);
   static word m[NR * W], m0[NR * W];
   ref_from_mzd(m, W, M); ref_from_mzd(m0, W, M);
   mzp_t *P = sym_perm();
@@ -232,11 +252,12 @@ void harness(void) {
   if (TRANS) mzd_apply_p_left_trans(M, P); else mzd_apply_p_left(M, P);
   if (!TRANS) for (int i = 0; i < PL; ++i) r_row_swap(m, i, pv[i]);
   else for (int i = PL - 1; i >= 0; --i) r_row_swap(m, i, pv[i]);
-  VASSERT(ref_eq_mzd(m, W, M, 1), "left application = row swaps i<->P[i] (ascending; transposed: descending)");
+  VASSERT(ref_eq_mzd(m, W, M, VOWNED(M)), "left application = row swaps i<->P[i] (ascending; transposed: descending)");
   for (int i = 0; i < PL; ++i) VASSERT(P->values[i] == pv[i], "P unchanged");
   /* undone by the transposed counterpart */
   if (TRANS) mzd_apply_p_left(M, P); else mzd_apply_p_left_trans(M, P);
-  VASSERT(ref_eq_mzd(m0, W, M, 1), "application undone by its transposed counterpart");
+  VASSERT(ref_eq_mzd(m0, W, M, VOWNED(M)), "application undone by its transposed counterpart");
+  VFRAMES();
   VDONE();
 }
 #endif
@@ -244,7 +265,8 @@ void harness(void) {
 #if defined(H_PRIGHT)
 /* TRANS 0/1 ; P of length PL <= NC ; optional SROW (capped variant: rows >= SROW only, trans only) */
 void harness(void) {
-  mzd_t *M = vmat(NR, NC);
+  verif_init(0);
+  mzd_t *M = vop(NR, NC, 2);
   static word m[NR * W], m0[NR * W];
   ref_from_mzd(m, W, M); ref_from_mzd(m0, W, M);
   mzp_t *P = sym_perm();
@@ -259,12 +281,13 @@ void harness(void) {
 #endif
   if (TRANS) for (int i = 0; i < PL; ++i) r_col_swap_rows(m, i, pv[i], r0, NR);
   else for (int i = PL - 1; i >= 0; --i) r_col_swap_rows(m, i, pv[i], r0, NR);
-  VASSERT(ref_eq_mzd(m, W, M, 1), "right application = column swaps i<->P[i] (descending; transposed: ascending)");
+  VASSERT(ref_eq_mzd(m, W, M, VOWNED(M)), "right application = column swaps i<->P[i] (descending; transposed: ascending)");
   for (int i = 0; i < PL; ++i) VASSERT(P->values[i] == pv[i], "P unchanged");
 #ifndef SROW
   if (TRANS) mzd_apply_p_right(M, P); else mzd_apply_p_right_trans(M, P);
-  VASSERT(ref_eq_mzd(m0, W, M, 1), "application undone by its transposed counterpart");
+  VASSERT(ref_eq_mzd(m0, W, M, VOWNED(M)), "application undone by its transposed counterpart");
 #endif
+  VFRAMES();
   VDONE();
 }
 #endif
@@ -272,7 +295,8 @@ void harness(void) {
 #if defined(H_PTRI)
 /* mzd_apply_p_right_trans_tri: swap i (ascending) only on rows above row i; PL == NC */
 void harness(void) {
-  mzd_t *M = vmat(NR, NC);
+  verif_init(0);
+  mzd_t *M = vop(NR, NC, 2);
   static word m[NR * W];
   ref_from_mzd(m, W, M);
   mzp_t *P = sym_perm();
@@ -280,7 +304,8 @@ void harness(void) {
   for (int i = 0; i < PL; ++i) pv[i] = P->values[i];
   mzd_apply_p_right_trans_tri(M, P);
   for (int i = 0; i < PL; ++i) r_col_swap_rows(m, i, pv[i], 0, i < NR ? i : NR);
-  VASSERT(ref_eq_mzd(m, W, M, 1), "triangular right application: swap i only on rows above row i");
+  VASSERT(ref_eq_mzd(m, W, M, VOWNED(M)), "triangular right application: swap i only on rows above row i");
+  VFRAMES();
   VDONE();
 }
 #endif
@@ -289,6 +314,7 @@ void harness(void) {
 /* left and right application multiply by the same permutation matrix:
  * (e_j applied from the right) vs (identity rows from the left):  (I*P)[i][j] == (P*I)[i][j] */
 void harness(void) {
+  verif_init(0);
   enum { N = NC };
   mzd_t *L = mzd_init(N, N), *R = mzd_init(N, N);
   mzd_set_ui(L, 1); mzd_set_ui(R, 1);
@@ -298,7 +324,8 @@ void harness(void) {
   else { mzd_apply_p_left(L, P); mzd_apply_p_right(R, P); }
   static word l[N * WORDS(N)];
   ref_from_mzd(l, WORDS(N), L);
-  VASSERT(ref_eq_mzd(l, WORDS(N), R, 1), "P*I == I*P : left and right application use the same permutation matrix");
+  VASSERT(ref_eq_mzd(l, WORDS(N), R, VOWNED(R)), "P*I == I*P : left and right application use the same permutation matrix");
+  VFRAMES();
   VDONE();
 }
 #endif
